@@ -16,8 +16,10 @@ AlphaInd   == <<"a", " ", "\n", "#">>
 AlphaInterp == <<"a", " ", "\"", "{", "}">>
 \* doc strings: the triple quote as one unit, so that opening and closing quotes at different columns and lines fit into few parts
 AlphaDoc == <<"\"\"\"", "a", " ", "\n">>
+\* interpolation in strings that span lines: the line break before, inside and behind the braces
+AlphaILines == <<"a", "\n", "\"", "{", "}">>
 CONSTANT AlphaName
-Alpha == CASE AlphaName = "full" -> AlphaFull [] AlphaName = "lines" -> AlphaLines [] AlphaName = "indent" -> AlphaInd [] AlphaName = "interp" -> AlphaInterp [] AlphaName = "doc" -> AlphaDoc
+Alpha == CASE AlphaName = "full" -> AlphaFull [] AlphaName = "lines" -> AlphaLines [] AlphaName = "indent" -> AlphaInd [] AlphaName = "interp" -> AlphaInterp [] AlphaName = "doc" -> AlphaDoc [] AlphaName = "ilines" -> AlphaILines
 
 \* the token vocabulary: every keyword and operator spelling of the language plus literals of each class
 Vocab == << "from", "type", "class", "pure", "isa", "as", "import", "forward", ".", ",", ":", "vararg", "\\",
